@@ -1,4 +1,5 @@
 import BtcVerif.Model.Compact
+import BtcVerif.Spec.Compact
 import Mathlib.Tactic.IntervalCases
 
 namespace BtcVerif
